@@ -31,9 +31,14 @@ type trackFile struct {
 	writeAfterClose int
 	// closeErr: what Close returns AFTER it has closed (a sink whose close reports a late write-back error)
 	closeErr error
+	// delay: every Write takes this long (a slow disk) — round 6
+	delay time.Duration
 }
 
 func (f *trackFile) Write(p []byte) (int, error) {
+	if f.delay > 0 {
+		time.Sleep(f.delay)
+	}
 	f.mu.Lock()
 	if f.closes > 0 {
 		f.writeAfterClose++
@@ -76,6 +81,7 @@ type trackFs struct {
 	afero.Fs
 	file     *trackFile
 	closeErr error
+	delay    time.Duration
 }
 
 func newTrackFs() *trackFs { return &trackFs{Fs: afero.NewMemMapFs()} }
@@ -85,7 +91,7 @@ func (t *trackFs) Create(name string) (afero.File, error) {
 	if err != nil {
 		return nil, err
 	}
-	t.file = &trackFile{File: f, closeErr: t.closeErr}
+	t.file = &trackFile{File: f, closeErr: t.closeErr, delay: t.delay}
 	return t.file, nil
 }
 
@@ -96,7 +102,7 @@ func (t *trackFs) OpenFile(name string, flag int, perm os.FileMode) (afero.File,
 	if err != nil {
 		return nil, err
 	}
-	t.file = &trackFile{File: f, closeErr: t.closeErr}
+	t.file = &trackFile{File: f, closeErr: t.closeErr, delay: t.delay}
 	return t.file, nil
 }
 
